@@ -265,6 +265,10 @@ def ptr_key(f, n):
         return None
     if k in ("CXXConstructExpr",) and len(n.get("c", [])) == 1:
         return ptr_key(f, n["c"][0])                      # copy of a smart pointer
+    if k == "CXXOperatorCallExpr" and n.get("op") == "=" and len(n.get("c", [])) == 3:
+        return ptr_key(f, n["c"][1])                      # (x = e) denotes x
+    if k == "BinaryOperator" and n.get("op") == "=":
+        return ptr_key(f, n["c"][0])
     if k == "CallExpr" and not call_args(n):
         return expr_str(f, n)
     if k == "CallExpr":
@@ -334,6 +338,13 @@ def cond_facts(f, cond, truth, extra=None):
             if key:
                 out.add(("nn" if truth else "null", key))
             return out
+    # `!!a != !!b` / `!!a == !!b`: both pointers are null or both are non-null
+    if k == "BinaryOperator" and n.get("op") in ("==", "!=") and len(c) == 2:
+        ka, kb = _double_neg_key(f, c[0]), _double_neg_key(f, c[1])
+        if ka and kb:
+            if (n["op"] == "==") == truth:
+                out.add(("samenull", ka + "\x00" + kb))
+            return out
     # comparisons with null
     op = n.get("op")
     if k == "BinaryOperator" and op in ("==", "!="):
@@ -394,6 +405,38 @@ def bool_local_init(f, ref):
     return cache.get(ref.get("d"))
 
 
+def _double_neg_key(f, n):
+    n = strip_casts(n)
+    for _ in range(2):
+        if n is None or not (n["k"] in ("UnaryOperator", "CXXOperatorCallExpr") and n.get("op") == "!"):
+            return None
+        n = strip_casts(n["c"][-1])
+    if n is not None and n["k"] == "CXXMemberCallExpr" and (f.decl(n) or {}).get("n", "").startswith("operator bool"):
+        return ptr_key(f, member_call_object(n))
+    t = f.type(n) if n is not None else None
+    if t is not None and (t.get("ptr") or "shared_ptr" in t["c"]):
+        return ptr_key(f, n)
+    return None
+
+
+def close_samenull(st):
+    """propagate non-null / null facts across ('samenull', a, b) pairs"""
+    pairs = [x[1].split("\x00") for x in st if x[0] == "samenull"]
+    if not pairs:
+        return st
+    out = set(st)
+    changed = True
+    while changed:
+        changed = False
+        for a, b in pairs:
+            for x, y in ((a, b), (b, a)):
+                for kind in ("nn", "null"):
+                    if (kind, x) in out and (kind, y) not in out:
+                        out.add((kind, y))
+                        changed = True
+    return frozenset(out)
+
+
 def assigned_key(f, n):
     """If element n (re)defines a pointer-like lvalue, return its key."""
     k = n["k"]
@@ -417,13 +460,28 @@ def assigned_key(f, n):
     return None
 
 
+def definitely_nonnull(f, e):
+    e = strip_casts(e)
+    while e is not None and e["k"] in ("CXXConstructExpr", "CXXBindTemporaryExpr") and len(e.get("c", [])) == 1:
+        e = strip_casts(e["c"][0])
+    if e is None:
+        return False
+    if e["k"] == "CXXNewExpr":
+        return True
+    if e["k"] == "UnaryOperator" and e.get("op") == "&":
+        return True
+    if e["k"] == "CallExpr" and (f.decl(e) or {}).get("n") in ("make_shared",):
+        return True
+    return False
+
+
 def kill(state, key):
     if key is None:
         return state
     pref1, pref2 = key + "->", key + "."
-    return frozenset(x for x in state
-                     if not (x[1] == key or x[1].startswith(pref1) or x[1].startswith(pref2)
-                             or (key + "(") in x[1] and False))
+    def hit(k):
+        return k == key or k.startswith(pref1) or k.startswith(pref2)
+    return frozenset(x for x in state if not any(hit(k) for k in x[1].split("\x00")))
 
 
 class NullFlow(object):
@@ -450,6 +508,10 @@ class NullFlow(object):
                 rhs = n["c"][2]
             rk = ptr_key(self.f, rhs) if rhs is not None else None
             keep = rk is not None and rk != key and ("nn", rk) in st
+            if n["k"] == "CXXMemberCallExpr" and call_args(n):      # x.reset(new T)
+                rhs = call_args(n)[0]
+            if rhs is not None and definitely_nonnull(self.f, rhs):
+                keep = True
             st = kill(st, key)
             if keep:
                 st = st | frozenset([("nn", key)])
@@ -466,12 +528,13 @@ class NullFlow(object):
         if not facts:
             return st
         # contradiction => infeasible edge
-        for kind, key in facts:
+        for fact in facts:
+            kind, key = fact
             if kind == "nn" and ("null", key) in st:
                 return TOP
             if kind == "null" and ("nn", key) in st:
                 return TOP
-        return st | frozenset(facts)
+        return close_samenull(st | frozenset(facts))
 
     def solve(self):
         if self.cfg is None:
